@@ -75,6 +75,17 @@ class TypeChecker:
         if isinstance(typ, ast.BaseType):
             pass
         elif isinstance(typ, ast.PointerType):
+            # A pointer must in the end point to something else than a
+            # pointer:
+            pointers = [typ]
+            while True:
+                target = self.context.get_type(pointers[-1].ptype)
+                if not isinstance(target, ast.PointerType):
+                    break
+                if target in pointers:
+                    raise SemanticError(f"Recursive pointer type {typ}", None)
+                pointers.append(target)
+
             # If a pointed type is detected, stop structural
             # equivalence. This to allow linked lists!
             self.check_type(typ.ptype, first=False, byname=True)
@@ -90,7 +101,10 @@ class TypeChecker:
             # This struct is complete, it may be used again:
             self.got_types.remove(typ)
         elif isinstance(typ, ast.ArrayType):
+            # An array cannot contain itself either:
+            self.got_types.add(typ)
             self.check_type(typ.element_type, first=False)
+            self.got_types.remove(typ)
         elif isinstance(typ, ast.DefinedType):
             pass
         else:  # pragma: no cover
